@@ -1,2 +1,46 @@
 """Classifier predicates for known findings: (witness, case) -> bool.  Keyed by mechanism, never by
 seed / hash / random values.  Referenced by name from /verif/known_findings.json."""
+
+
+# ------------------------------------------------------------------------------------------------ C17
+def c17_wr_derived_from_twtr(v, case):
+    """init.py derives MR0.WR from the controller's tWTR (DDR3: max(tWTR*nphases, 5), DDR4: max(tWTR*nphases, 10)) and
+    programs the constant WR=3 for DDR2; above some clocks that is shorter than the datasheet tWR.  Accepts a witness
+    only if *every* problem in it is a too-short WR whose programmed value is exactly what that derivation gives."""
+    if v.get("kind") != "init-contract":
+        return False
+    probs = v.get("problems") or []
+    if not probs:
+        return False
+    for p in probs:
+        if p.get("problem") != "write recovery shorter than datasheet tWR":
+            return False
+        mt = v.get("memtype")
+        wr = p.get("WR_programmed")
+        twtr, n = p.get("controller_tWTR_cycles"), p.get("nphases")
+        if mt == "DDR2":
+            if wr != 3:
+                return False
+        elif mt == "DDR3":
+            if twtr is None or wr != max(twtr * n, 5):
+                return False
+        elif mt == "DDR4":
+            if twtr is None or wr != max(twtr * n, 10):
+                return False
+        else:
+            return False
+    return True
+
+
+def c17_py_header_without_clam_shell(v, case):
+    """get_sdram_phy_py_header has no clam-shell handling: the C header emits every MRS twice (top / bottom chip-select
+    flags, swapped address bits for the bottom), the Python header once, without the flags."""
+    if v.get("kind") != "header-mismatch" or not v.get("clam_shell"):
+        return False
+    if v.get("problem") == "C and Python headers have different numbers of steps":
+        return v.get("c_steps", 0) > v.get("py_steps", 0)
+    if v.get("problem") == "C and Python headers differ":
+        c, p = v.get("c", {}), v.get("py", {})
+        return (c.get("a") == p.get("a") and c.get("ba") == p.get("ba") and c.get("delay") == p.get("delay")
+                and int(c.get("cmd", "0"), 16) == (int(p.get("cmd", "0"), 16) | 0x40))
+    return False
